@@ -520,12 +520,12 @@ def molecule_pool(ctx):
         m = molgen.parse(s)
         if m is not None:
             pool.append((f'extra:{s}', m, [], None))
-    corp = molgen.corpus(rng, 50 if ctx.quick else 500)
+    corp = molgen.corpus(rng, 80 if ctx.quick else 500)
     for lab, m in corp:
         pool.append((lab, m, [], None))
     # corpus molecules (Kekule form) decorated with instantiated groups
     if inst and corp:
-        for _ in range(50 if ctx.quick else 600):
+        for _ in range(80 if ctx.quick else 600):
             lab, base = rng.choice(corp)
             base = base.copy()
             try:
@@ -550,7 +550,7 @@ def molecule_pool(ctx):
         if m is not None:
             pool.append((f'ion:{lab}', m, [], None))
     # random decorated skeletons (often valence-invalid) and ring assemblies
-    for i in range(30 if ctx.quick else 300):
+    for i in range(60 if ctx.quick else 300):
         try:
             edges = molgen.ring_assembly(rng, 3) if rng.random() < 0.5 else rng.choice(_small_graphs())
             m = molgen.decorate(rng, list(edges), hetero=0.4, multiple=0.3, charge=0.15)
@@ -783,9 +783,9 @@ def stream_std(ctx, pool, programs):
 
 
 def tiny_molecules():
-    """exhaustive: every molecule on <= 3 atoms (path / triangle / pair / single atom) over elements {C, N, O}, bond orders
+    """exhaustive: every chain of <= 3 atoms (single atom / pair / three in a row) over elements {C, N, O}, bond orders
     {1, 2, 3}, charges {-1, 0, +1} - drawn through the public API; mostly valence-invalid, all of them legal inputs."""
-    shapes = [((1,), ()), ((1, 2), ((1, 2),)), ((1, 2, 3), ((1, 2), (2, 3))), ((1, 2, 3), ((1, 2), (2, 3), (1, 3)))]
+    shapes = [((1,), ()), ((1, 2), ((1, 2),)), ((1, 2, 3), ((1, 2), (2, 3)))]
     for verts, edges in shapes:
         for els in itertools.product((6, 7, 8), repeat=len(verts)):
             for chs in itertools.product((-1, 0, 1), repeat=len(verts)):
@@ -844,7 +844,7 @@ def stream_tiny(ctx, programs):
         ctx.dist(f'TINY:{op}:' + ('changed' if changed else 'unchanged/error'))
         if real != model:
             disagree(ctx, op, f'tiny:{lab}', line, real, model)
-    ctx.notes.append(f'exhaustive sub-domain: all {n} molecules on <= 3 atoms over C/N/O x orders 1-3 x charges -1..1 through STD/EXPL/IMPL')
+    ctx.notes.append(f'exhaustive sub-domain: all {n} chains of <= 3 atoms over C/N/O x orders 1-3 x charges -1..1 through STD/EXPL/IMPL')
 
 
 def stream_hydrogens(ctx, pool, programs):
